@@ -7,8 +7,10 @@ See Also:
 
 from .serialization_error import *
 
+# The generated package is imported before the subpackages below, so that its own `map`, `net`
+# and `pub` subpackages do not replace them in this namespace.
+from ._generated import *
+
 from .map import *
 from .net import *
 from .pub import *
-
-from ._generated import *
